@@ -341,7 +341,7 @@ def run(ctx):
             rng = random.Random("%s:%d:replay:%d" % (ctx.pid, ctx.seed, i))
             progs.append((gen_sample_program(rng), "%s:%d:stream:%d" % (ctx.pid, ctx.seed, i), rng.random() < 0.3))
     for P, sseed, propagate in progs:
-        if time.time() - ctx.t0 > tmax and not ctx.replay_in:
+        if time.time() - ctx.t_work > tmax and not ctx.replay_in:
             ctx.count("not-run:time-budget")
             continue
         src = tu.to_src(P)
@@ -433,7 +433,7 @@ def run(ctx):
             k += 1
             todo.append((P, len(todo) % 3 == 0))
         for j, (P, propagate) in enumerate(todo):
-            if time.time() - ctx.t0 > tmax2:
+            if time.time() - ctx.t_work > tmax2:
                 ctx.count("not-run:time-budget")
                 continue
             fl, info = freq_case(P, N, propagate, 1000 * ctx.seed + j)
